@@ -105,6 +105,14 @@ def rule_filter_and_operators(ck, repo, R):
               f'automorphism filter keys are {[src(k.value) for k in keys]}; both branches must use frozenset(mapping.values())', file=d.file, line=d.lineno, func=d.qualname)
     seen_adds = [n for n in ast.walk(d.node) if isinstance(n, ast.Call) and src(n.func) == 'seen.add']
     ck.decide(len(seen_adds) == 2, R, 'filter:remember', len(seen_adds), 'the filter no longer records every yielded atom set', file=d.file, line=d.lineno)
+    # the memory of the filter spans all assignments of pattern components to target components: no re-initialisation inside the permutations loop
+    perm_loops = [n for n in ast.walk(d.node) if isinstance(n, ast.For) and 'permutations(' in src(n.iter)]
+    inits_inside = [a for l in perm_loops for a in ast.walk(l) if isinstance(a, ast.Assign) and any(src(t) == 'seen' for t in a.targets)]
+    inits = [a for a in ast.walk(d.node) if isinstance(a, ast.Assign) and any(src(t) == 'seen' for t in a.targets)]
+    ck.decide(len(perm_loops) == 1 and inits and not inits_inside, R, 'filter:memory-spans-assignments', len(inits),
+              'the set of already reported image-atom sets is (re)created inside the loop over component assignments: interchangeable pattern components mapped onto the same '
+              'target components in another order give the same image set again, and the filter no longer recognises it', file=d.file,
+              line=inits_inside[0].lineno if inits_inside else d.lineno, func=d.qualname, construct='seen = set()')
     s = src(d.node)
     ck.decide('permutations(other.connected_components, len(components))' in s, R, 'components:distinct', None,
               'multi-component patterns are no longer assigned to distinct target components (permutations)', file=d.file, line=d.lineno)
